@@ -25,8 +25,16 @@ META = {
     "hypothesis (pyproj curvature) and is sampled; paste path coverage is proved for true transforms within half a "
     "pixel of the snapped one (scale residue * extent + shift residue < 1/2).",
     "technique": "Lean 4 proof over hand model + exhaustive/random differential correspondence with real code",
+    "unmodelled": "overlap.py: GbxPointTransform (pyproj transformer, lon/lat clamp of geographic sources: abstract point "
+    "transform in the model, sampled by the pyproj oracle), CRS equality inside native_pix_transform (C01/C19), "
+    "compute_output_geobox (C11); math.py: decompose_rws beyond the two scales it feeds (rotation / shear factors, the "
+    "det<0 flip), numpy lstsq itself (its closed form on the 5-point stencil is modelled and proved to satisfy the normal "
+    "equations), norm_xy, quasi_random_r2; roi.py: polygon_path with closed=True, the N-d / int / open-slice variants of "
+    "the ROI helpers (C17); geobox.py: zoom_out beyond the shape it returns (C02); float32 rounding of roi_boundary and "
+    "numpy>=2 float32 arithmetic of LinearPointTransform (exact in the model; excluded from the exact stream).",
     "design_ref": "DESIGN.md §4 C03",
 }
+META["note"] += "  NOT MODELLED: " + META["unmodelled"]
 
 CRS0 = "EPSG:3857"
 TOL3 = Fraction(1e-3)
@@ -596,6 +604,88 @@ def run(R: Run):
         R.corr(f"c03 bnd {y0} {y1} {x0} {x1} {pps}",
                lambda: list_s([f"{frac_s(float(x))};{frac_s(float(y))}" for x, y in
                                RO.roi_boundary((slice(y0, y1), slice(x0, x1)), pps)]), sig=f"bnd|{pps}")
+
+    # ================================================================ get_scale_at_point stencil / affine_from_pts
+    from odc.geo.math import affine_from_pts
+    from odc.geo.types import xy_
+
+    def lat(v, k):  # nearest point of the 2^-k lattice (the fitted coefficients are exactly on it; lstsq is not bit-exact)
+        return frac_s(round(float(v) * 2**k) / 2**k)
+
+    for _ in range(R.pick(400, 4000)):
+        far = rng.random() < 0.4
+        x0 = float(rng.randint(-2**17, 2**17)) if far else rng.randint(-64, 64) + rng.choice([0, 0.5])
+        y0 = float(rng.randint(-2**17, 2**17)) if far else rng.randint(-64, 64) + rng.choice([0, 0.5])
+        rr = rng.choice([1, 1, 1, 2, 0.5])
+        XX = [(x0, y0), (x0 - rr, y0), (x0, y0 - rr), (x0 + rr, y0), (x0, y0 + rr)]
+        # images on the 2^-6 lattice, not necessarily affine; centre value chosen so that the mean is on the lattice too
+        YY = [[rng.randint(-4000, 4000) / 64 for _ in range(2)] for _ in range(5)]
+        for c_ in range(2):
+            rest = sum(YY[i][c_] for i in range(1, 5))
+            YY[0][c_] = 5 * rng.randint(-40, 40) / 64 - rest
+        pts_s = list_s([f"{frac_s(a_)};{frac_s(b_)}" for a_, b_ in YY])
+
+        def fst():
+            f_ = affine_from_pts([xy_(*p_) for p_ in XX], [xy_(*p_) for p_ in YY])
+            lin = f"{lat(f_.a, 10)};{lat(f_.b, 10)};{lat(f_.d, 10)};{lat(f_.e, 10)}"
+            return lin + (" far" if far else f" {lat(f_.c, 10)};{lat(f_.f, 10)}")
+
+        res_m = run_driver("C03", [f"c03 stencil {frac_s(x0)} {frac_s(y0)} {frac_s(rr)} {pts_s}"])[0] if False else None
+        # offsets are compared near the origin only: far away the un-centred least-squares problem is ill conditioned and
+        # the offset carries visible rounding (the linear part, which the scale uses, does not)
+        line = f"c03 stencil {frac_s(x0)} {frac_s(y0)} {frac_s(rr)} {pts_s}"
+        out = guarded(fst)
+        if far:
+            R.corr(line + " far", lambda: out, sig="stencil|far")
+        else:
+            R.corr(line, lambda: out, sig="stencil|near")
+
+    # ================================================================ cross-CRS branch driven by an affine map flagged non-linear
+    class FakeNonLinear:  # pylint: disable=too-few-public-methods
+        """a PointTransform whose `.linear` is None: compute_reproject_roi takes the cross-CRS branch"""
+
+        def __init__(self, A_, back=None):
+            self.A_, self._back = A_, back
+
+        @property
+        def linear(self):
+            return None
+
+        @property
+        def back(self):
+            if self._back is None:
+                self._back = FakeNonLinear(~self.A_, self)
+            return self._back
+
+        def __call__(self, pts):
+            return [xy_(self.A_ * (float(p_.x), float(p_.y))) for p_ in pts]
+
+    for _ in range(R.pick(500, 5000)):
+        sshape, dshape = (rng.randint(1, 40), rng.randint(1, 40)), (rng.randint(1, 40), rng.randint(1, 40))
+        if rng.random() < 0.2:
+            dshape = (rng.choice([1, 2, 3]), rng.randint(100, 3000))[:: rng.choice([1, -1])]
+            sshape = (rng.randint(50, 3000), rng.randint(50, 3000))
+        M, kind = gen_M_exact(rng, sshape, dshape)
+        if not is_sq(Fraction(M.a) ** 2 + Fraction(M.d) ** 2) or any(Fraction(v) * 64 % 1 != 0 for v in (M.c, M.f)):
+            continue
+        pad = rng.choice([None, None, 0, 1, 2, 5])
+        al = rng.choice([None, None, None, 0, 1, 2, 4, 16])
+        src, dst = gb(sshape, Affine.identity()), gb(dshape, M)
+
+        def fnl():
+            back = FakeNonLinear(M)            # dst -> src
+            tr = FakeNonLinear(~M, back)       # src -> dst
+            back._back = tr                    # pylint: disable=protected-access
+            O.native_pix_transform = lambda a_, b_: tr
+            try:
+                r_ = O.compute_reproject_roi(src, dst, padding=pad, align=al)
+            finally:
+                O.native_pix_transform = orig_npt0
+            return f"{roi_s(r_.roi_src)} {roi_s(r_.roi_dst)} {bool_s(r_.paste_ok)} {int(r_.read_shrink)}"
+
+        orig_npt0 = O.native_pix_transform
+        R.corr(f"c03 nlplan {sshape[0]} {sshape[1]} {dshape[0]} {dshape[1]} {aff_s(M)} {opt_s(pad)} {opt_s(al)}", fnl,
+               sig="nlplan|" + kind)
 
     # ================================================================ exact stream: compute_reproject_roi
     def options():
